@@ -1,4 +1,5 @@
 import PysnarkModel.Lemmas.BranchNative
+import PysnarkModel.Gen.Api
 import PysnarkModel.Lemmas.BranchInv
 import PysnarkModel.Lemmas.BranchObl
 import PysnarkModel.Lemmas.BranchGuard
@@ -364,5 +365,13 @@ example : (match runValsT exTypedInit [1, 1] [(3, 2)] exTyped (St.init 97 4 2), 
       E == [(0, [4]), (1, [4]), (2, [4, 40, 12, 16]), (3, [20])] && satAll s && decide (s.shape = s'.shape)
     | _, _, _ => false) = true := by
   first | decide +kernel | fail "C09 example 5 (typed, branch taken)"
+
+
+/-- **API surface pinned** (regenerated from the source on every run, `Gen/Api.lean`): the methods the model of this
+property transcribes are exactly the methods the code has.  A method added to the code (say an in-place `__iadd__`, which
+Python would prefer over the `__add__` the model knows) or removed from it changes the generated list and this obligation
+fails: the tie is then broken by construction and the check runs its extended search. -/
+theorem C09_api_surface :
+    Gen.api_branching = ["if_then_else", "BranchingValues.__init__", "BranchingValues.__del__", "BranchingValues.__getattr__", "BranchingValues.__setattr__", "BranchingValues.backup", "BranchContext.__init__", "BranchContext.exit", "BranchContext.enter", "BranchContext.end", "IfContext.__init__", "IfContext._elif", "IfContext._else", "IfContext.end", "getcontext", "_if", "_elif", "_else", "_endif", "WhileContext.exit", "WhileContext._while", "WhileContext.end", "_while", "_endwhile", "_breakif", "ObliviousIterator.__init__", "ObliviousIterator.__next__", "_range.__init__", "_range.__iter__", "_endfor"] := rfl
 
 end Pysnark
